@@ -271,6 +271,7 @@ func runR11_5(c *Ctx, r *R) {
 		return
 	}
 	isMsg := func(v ssa.Value) bool { return typeIs(v.Type(), pkgPath("proto/pmpx"), "Message") }
+	r11sa := newStatusAn(c)
 	// isCodeOf: v is the code of message m - the result of m.Code(), or a parameter of an unexported function that
 	// receives, at every call site, the code of the message it receives as m
 	var isCodeOf func(fn *ssa.Function, v, m ssa.Value, depth int) bool
@@ -320,6 +321,9 @@ func runR11_5(c *Ctx, r *R) {
 		return good && n > 0
 	}
 	// codeKnown: on every path to block b, the code of message value m was compared equal to want
+	// bind: parameters of the enclosing helper whose value is a known constant at the call under examination
+	// (readExpected(pmpx.Code_ConnectRequest, ...): the comparison code == expected is a comparison with that code)
+	var bind map[*ssa.Parameter]int64
 	codeKnown := func(b *ssa.BasicBlock, m ssa.Value, want int64) bool {
 		fn := b.Parent()
 		for _, alt := range backPaths(b, nil, 64) {
@@ -333,6 +337,18 @@ func runR11_5(c *Ctx, r *R) {
 					if k, isK := constInt(y); isK && rel.Op == token.EQL && k == want && isCodeOf(fn, x, m, 0) {
 						known = true
 					}
+					if rel.Op == token.EQL && bind != nil {
+						if px, ok := x.(*ssa.Parameter); ok {
+							if k, bound := bind[px]; bound && k == want && isCodeOf(fn, y, m, 0) {
+								known = true
+							}
+						}
+						if py, ok := y.(*ssa.Parameter); ok {
+							if k, bound := bind[py]; bound && k == want && isCodeOf(fn, x, m, 0) {
+								known = true
+							}
+						}
+					}
 				}
 			}
 			if !known {
@@ -345,6 +361,50 @@ func runR11_5(c *Ctx, r *R) {
 	establishedAt = func(fn *ssa.Function, at ssa.Instruction, m ssa.Value, want int64, depth int) bool {
 		if codeKnown(at.Block(), m, want) {
 			return true
+		}
+		// the message is the result of a helper that checked the code itself (msg, st := r.readExpected(code, ..)):
+		// used here under st.OK(), and every exit of the helper with a possibly-OK status returns a message whose
+		// code it compared with the code handed in at this call
+		if hc, mi := resultOfCall(m); hc != nil && depth < 2 {
+			if h := hc.Call.StaticCallee(); h != nil && h.Blocks != nil && h.Pkg == fn.Pkg && !ast.IsExported(h.Name()) {
+				sj := -1
+				res := h.Signature.Results()
+				for j := 0; j < res.Len(); j++ {
+					if isStatusType(res.At(j).Type()) {
+						sj = j
+					}
+				}
+				if sj >= 0 && mi < res.Len() {
+					if ex := extractOf(hc, sj); ex != nil && r11sa.classOf(ex, at.Block(), false, 0) == SOK {
+						saved := bind
+						bind = map[*ssa.Parameter]int64{}
+						for k, prm := range h.Params {
+							if k < len(hc.Call.Args) {
+								if kv, isK := constInt(hc.Call.Args[k]); isK {
+									bind[prm] = kv
+								}
+							}
+						}
+						all, nOK := true, 0
+						for _, ret := range returnsOf(h) {
+							if ret.Block() == h.Recover || len(ret.Results) != res.Len() {
+								continue
+							}
+							if r11sa.classOf(ret.Results[sj], ret.Block(), false, 0) == SNonOK {
+								continue
+							}
+							nOK++
+							if !establishedAt(h, ret, unspill(ret.Results[mi]), want, depth+1) {
+								all = false
+							}
+						}
+						bind = saved
+						if all && nOK > 0 {
+							return true
+						}
+					}
+				}
+			}
 		}
 		p, isParam := m.(*ssa.Parameter)
 		if !isParam || depth >= 2 || ast.IsExported(fn.Name()) {
